@@ -374,6 +374,24 @@ def step (s : SSt) (w : List String) : SSt × String :=
       match s.db.commit h with
       | .ok db => ({ s with db := db }, s!"ok mem={db.mem.length}")
       | r => (s, failStr r)
+  | ["sflushfail", id, site] =>
+    -- `TrieDatabase.Commit(root)` whose batch write fails: `pre` = the intermediate write of the
+    -- preimage loop, `final` = the only (final) write of a one-batch flush, `node` = an intermediate
+    -- write inside `commit` (what had been written before depends on Go's map order: `wrote = []` here,
+    -- the harness issues no disk-only op before the retry — `flush_retry_eq` holds for every `wrote`)
+    let fault : Option Fault := if site == "pre" then some .preimage
+      else if site == "final" then some (.final [])
+      else if site == "node" then some (.node [])
+      else none
+    match (parseId? id).bind (fun i => s.ids[i]?), fault with
+    | some h, some f =>
+      match s.db.flush {} h (some f) with
+      | .ok out =>
+        ({ s with db := out.db },
+          (if out.err then "err write" else "ok") ++ s!" mem={out.db.mem.length} lock=" ++
+            (if out.rlocks = 0 then "free" else "held"))
+      | r => (s, failStr r)
+    | _, _ => (s, "bad-op")
   | ["sreopen", id, mode] =>
     match (parseId? id).bind (fun i => s.ids[i]?) with
     | none => (s, "bad-op")
